@@ -27,7 +27,7 @@ type URIHdrsLst struct {
 
 // Reset re-initializes the parsed parameter list
 func (l *URIHdrsLst) Reset() {
-	for i := 0; i < l.HNo(); i++ {
+	for i := 0; i < len(l.Hdrs); i++ {
 		l.Hdrs[i].Reset()
 	}
 	t := l.Hdrs
